@@ -438,6 +438,12 @@ def run_sym(ctx, p):
     Bs = np.array(sympy.symbols('b0:4', real=True), dtype=object)
     C = np.array(sympy.symbols('c0:4', real=True), dtype=object)
     W = np.array(sympy.symbols('w0:3', real=True), dtype=object)
+    if p.get('kinds') and len(p['kinds']) == 3:
+        # some of the operands numeric (dyadic numbers: the arithmetic on the coefficients stays exact), the others symbolic: one
+        # product then has a symbolic operand on one side and a float64 array on the other
+        nums = [np.array([2.0, -1.0, 3.0, 0.5]), np.array([-0.25, 4.0, 1.5, -2.0]), np.array([1.0, 0.75, -3.0, 2.5])]
+        A, Bs, C = [nums[i_] if k_ == 'n' else x_ for i_, (k_, x_) in enumerate(zip(p['kinds'], (A, Bs, C)))]
+        sig['operands'] = p['kinds']
     if implname == 'base':
         mul, conj, inner, qpow, matrix, add = b.qqmul, b.conj, b.inner, b.qpow, b.matrix, lambda x, y: x + y
     else:
@@ -481,6 +487,16 @@ def run_sym(ctx, p):
             D = [sm.DualQuaternion(sm.Quaternion(np.array(sympy.symbols('%sr0:4' % k, real=True), dtype=object)),
                                    sm.Quaternion(np.array(sympy.symbols('%sd0:4' % k, real=True), dtype=object))) for k in 'xyz']
             lhs, rhs = ((D[0] * D[1]) * D[2]).vec, (D[0] * (D[1] * D[2])).vec
+        elif ident == 'dual_norm':
+            # the norm of a dual quaternion with symbolic parts: (|r|, r.d / |r|)
+            kn = p.get('kinds', 'ss')
+            rr = np.array(sympy.symbols('xr0:4', real=True), dtype=object) if kn[0] == 's' else np.array([2.0, -1.0, 3.0, 0.5])
+            dd = np.array(sympy.symbols('xd0:4', real=True), dtype=object) if kn[1] == 's' else np.array([-0.25, 4.0, 1.5, -2.0])
+            nrm = sm.DualQuaternion(sm.Quaternion(rr), sm.Quaternion(dd)).norm()
+            s2 = sum(x * x for x in rr)
+            lhs = np.array([sympy.simplify(sympy.sympify(nrm[0]) ** 2 - s2), sympy.simplify(sympy.sympify(nrm[1]) * sympy.sqrt(s2) - sum(x * y for x, y in zip(rr, dd)))], dtype=object)
+            lhs = np.array([0 if (x_.is_number and abs(float(x_)) < 1e-12) else x_ for x_ in lhs], dtype=object)
+            rhs = np.array([0, 0], dtype=object)
         elif ident == 'dual_matrix':
             D = [sm.DualQuaternion(sm.Quaternion(np.array(sympy.symbols('%sr0:4' % k, real=True), dtype=object)),
                                    sm.Quaternion(np.array(sympy.symbols('%sd0:4' % k, real=True), dtype=object))) for k in 'xy']
@@ -524,6 +540,16 @@ def run(ctx):
             k += 1
             if ctx.mine(k):
                 drive(RUNNERS, ctx, 'sym', dict(ident=ident, impl=impl))
+    for ident in ['assoc', 'distrib_left', 'distrib_right', 'conj_reverse', 'matrix_form', 'inner_dot', 'norm_mult']:
+        for impl in ('base', 'class'):
+            for kinds in ('snn', 'nsn', 'nns', 'sns', 'ssn', 'nss'):
+                k += 1
+                if ctx.mine(k):
+                    drive(RUNNERS, ctx, 'sym', dict(ident=ident, impl=impl, kinds=kinds))
+    for kinds in ('ss', 'sn'):
+        k += 1
+        if ctx.mine(k):
+            drive(RUNNERS, ctx, 'sym', dict(ident='dual_norm', impl='base', kinds=kinds))
     for n in (-3, -1, 0, 2, 4):
         for impl in ('base', 'class'):
             k += 1
